@@ -426,7 +426,10 @@ func (e *Exec) intrinsic(name string, fn *ssa.Function, args []Value) (Value, bo
 			if p.c.global {
 				e.noteGlobalWrite("sync.Once")
 			}
+			// what the function does happens-before every later return of Do: synchronised
+			e.lockDepth++
 			e.callValue(args[1], nil)
+			e.lockDepth--
 		}
 		return nil, true
 	case "(*sync.Mutex).Lock", "(*sync.RWMutex).Lock", "(*sync.RWMutex).RLock":
